@@ -24,6 +24,7 @@ pub enum IoEvent {
     Munmap,
     Close,
     Lseek,
+    Stat,
 }
 
 /// Kind of call, used for fault selection and scheduling points.
@@ -40,6 +41,7 @@ pub enum Kind {
     Ftruncate,
     Sleep,
     Munmap,
+    Stat,
 }
 
 impl Kind {
@@ -56,6 +58,7 @@ impl Kind {
             Kind::Ftruncate => "ftruncate",
             Kind::Sleep => "sleep",
             Kind::Munmap => "munmap",
+            Kind::Stat => "stat",
         }
     }
     pub fn from_name(s: &str) -> Option<Kind> {
@@ -68,6 +71,7 @@ impl Kind {
             "mmap" => Kind::Mmap,
             "close" => Kind::Close,
             "lseek" => Kind::Lseek,
+            "stat" => Kind::Stat,
             "ftruncate" => Kind::Ftruncate,
             "sleep" => Kind::Sleep,
             _ => return None,
@@ -412,6 +416,36 @@ pub unsafe extern "C" fn fsync(fd: c_int) -> c_int {
         // tmpfs: nothing to do, but keep the real call for fidelity
     }
     libc::syscall(libc::SYS_fsync, fd) as c_int
+}
+
+/// `File::metadata` of the standard library (statx with an empty path on the descriptor)
+#[no_mangle]
+pub unsafe extern "C" fn statx(dirfd: c_int, path: *const libc::c_char, flags: c_int, mask: libc::c_uint, buf: *mut libc::statx) -> c_int {
+    if is_tracked(dirfd) && flags & libc::AT_EMPTY_PATH != 0 {
+        if let Decision::Fail(e) = pre(Kind::Stat, dirfd, 0) {
+            set_errno(e);
+            return -1;
+        }
+        log_event(|| IoEvent::Stat);
+    }
+    libc::syscall(libc::SYS_statx, dirfd, path, flags, mask, buf) as c_int
+}
+
+#[no_mangle]
+pub unsafe extern "C" fn fstat64(fd: c_int, buf: *mut libc::stat64) -> c_int {
+    if is_tracked(fd) {
+        if let Decision::Fail(e) = pre(Kind::Stat, fd, 0) {
+            set_errno(e);
+            return -1;
+        }
+        log_event(|| IoEvent::Stat);
+    }
+    libc::syscall(libc::SYS_fstat, fd, buf) as c_int
+}
+
+#[no_mangle]
+pub unsafe extern "C" fn fstat(fd: c_int, buf: *mut libc::stat) -> c_int {
+    fstat64(fd, buf as *mut libc::stat64)
 }
 
 #[no_mangle]
